@@ -80,3 +80,21 @@ package sessions
 //@   requires s != nil && s.conn != nil
 //@   ensures #deadlineSets == old(#deadlineSets) + 1 && #lastDeadlineConn == s.conn
 //@   modifies #deadlineSets, #lastDeadlineConn
+//@ func (transport.TimeoutReadWriteCloser).SetReadDeadline(c transport.TimeoutReadWriteCloser, t time.Time) (err error)
+//@   modifies #readDeadlineSets
+//@   ensures #readDeadlineSets == old(#readDeadlineSets) + 1
+//@ func (transport.TimeoutReadWriteCloser).Close(c transport.TimeoutReadWriteCloser) (err error)
+//@   modifies #closes
+//@   ensures forall k int :: #closes[k] == old(#closes)[k] + (if k == dynval(c) then 1 else 0)
+
+// a new session starts with an empty, hence duplicate-free, filter set and remembers its connection, id and mount point
+//@ func NewSession(id string, mountpoint string, transport string, conn transport.TimeoutReadWriteCloser, connect *packet.Connect) (s *Session, err error)
+//@   requires connect != nil
+//@   ensures s != nil && fresh(s) && s.id == id && s.mountPoint == mountpoint && s.conn == conn && len(s.topics) == 0 && !s.Disconnected
+//@   ensures s.clientID == string(connect.ClientId)
+
+//@ immutable Session.id, conn, mountPoint, transport
+
+//@ func PrefixMountPoint(mountPoint string, t []byte) (out []byte)
+//@   ensures prefixed(mountPoint, t, out) && fresh(out) && out != nil
+//@   modifies newrows(t)
